@@ -27,7 +27,10 @@ Record obs := {
 }.
 
 Inductive case :=
-| CRoute (cmds : list cmd) (full : bool) (impl : outcome obs).
+| CRoute (cmds : list cmd) (full : bool) (impl : outcome obs)
+(* the config language on a command text whose weights have these bit patterns: did NewTable accept it?
+   (since /repo 0b2a40e parseWeight rejects NaN and +-Inf) *)
+| CParse (ws : list Z) (impl : outcome bool).
 
 (* ---------- running the model ---------- *)
 Notation F := arithF.
@@ -141,6 +144,63 @@ Definition q_counts (wq : list Q) (counts : list Z) : bool :=
               Qabs_le (x - inject_Z k) eps6 && (Z.abs (n - nq) <=? 1)%Z))
           (combine wq counts).
 
+(* ---------- the shape of the distribution, clause by clause from the property text ----------
+   Computed exactly on dyadic numbers m * 2^e from the FixedWeight fields, independently of the
+   model: no fixed weight -> 1/len each; a fixed weight f is honoured as given, or is f / sum when the
+   fixed weights sum to more than one, or when every target is fixed and they sum to less; the dynamic
+   targets share (1 - sum)/k, nothing when sum >= 1.  Tolerance 2^-30 absolute on every weight. *)
+Definition dy := (Z * Z)%type.
+Definition dy_of_f64 (x : f64) : option dy :=
+  match x with
+  | Binary.B754_zero _ _ _ => Some (0, 0)%Z
+  | Binary.B754_finite _ _ s m e _ => Some ((if s then Zneg m else Zpos m), e)
+  | _ => None
+  end.
+Definition dy_align (a b : dy) : Z * Z * Z :=
+  let e := Z.min (snd a) (snd b) in ((fst a * 2 ^ (snd a - e))%Z, (fst b * 2 ^ (snd b - e))%Z, e).
+Definition dy_add (a b : dy) : dy := let '(x, y, e) := dy_align a b in ((x + y)%Z, e).
+Definition dy_sub (a b : dy) : dy := let '(x, y, e) := dy_align a b in ((x - y)%Z, e).
+Definition dy_mul (a b : dy) : dy := ((fst a * fst b)%Z, (snd a + snd b)%Z).
+Definition dy_leb (a b : dy) : bool := let '(x, y, _) := dy_align a b in (x <=? y)%Z.
+Definition dy_ltb (a b : dy) : bool := let '(x, y, _) := dy_align a b in (x <? y)%Z.
+Definition dy_abs (a : dy) : dy := (Z.abs (fst a), snd a).
+Definition dy_int (z : Z) : dy := (z, 0%Z).
+Definition dy_tol : dy := (1, -30)%Z.
+(* |a - b| <= tol * c *)
+Definition dy_close (a b c : dy) : bool := dy_leb (dy_abs (dy_sub a b)) (dy_mul dy_tol c).
+
+Definition is_pinf (x : f64) : bool :=
+  match x with Binary.B754_infinity _ _ false => true | _ => false end.
+
+Definition shape_ok (fixed weights : list Z) : bool :=
+  let fx := map f64_of_bits fixed in
+  if existsb is_pinf fx then true else       (* +Inf is not a weight (the parser rejects it) *)
+  (* a target is fixed iff its FixedWeight is positive (NaN, -Inf, <= 0: dynamic) *)
+  let fdy := map (fun x => match dy_of_f64 x with
+                           | Some d => if (0 <? fst d)%Z then Some d else None
+                           | None => None end) fx in
+  let sum := fold_left (fun s o => match o with Some d => dy_add s d | None => s end) fdy (dy_int 0) in
+  let nf := length (filter (fun o => match o with Some _ => true | None => false end) fdy) in
+  let len := length fixed in
+  let k := (len - nf)%nat in
+  let one := dy_int 1 in
+  Nat.eqb (length weights) len &&
+  forallb (fun p =>
+    match dy_of_f64 (f64_of_bits (snd p)) with
+    | None => false
+    | Some w =>
+        if Nat.eqb nf 0 then dy_close (dy_mul w (dy_int (Z.of_nat len))) one (dy_int (Z.of_nat len))
+        else match fst p with
+             | Some f =>
+                 if dy_ltb one sum || (Nat.eqb k 0 && dy_ltb sum one)
+                 then dy_close (dy_mul w sum) f sum           (* scaled down / scaled up: w = f / sum *)
+                 else dy_close w f one                        (* honoured as given *)
+             | None =>
+                 if dy_leb one sum then dy_close w (dy_int 0) one
+                 else dy_close (dy_mul w (dy_int (Z.of_nat k))) (dy_sub one sum) (dy_int (Z.of_nat k))
+             end
+    end) (combine fdy weights).
+
 (* ---------- the boolean specification on the implementation's own observables ---------- *)
 Definition spec_obs (ntargets : nat) (o : obs) : bool :=
   let ws := map f64_of_bits (o_weights o) in
@@ -150,6 +210,7 @@ Definition spec_obs (ntargets : nat) (o : obs) : bool :=
   let len := Z.of_nat ntargets in
   (* effective weights: finite, non-negative, sum to one *)
   forallb f64_finite ws
+  && shape_ok (o_fixed o) (o_weights o)
   && forallb (fun q => Qle_bool 0 q) wq
   && Qabs_le (sumQ wq - 1) eps9
   (* the ring: non-empty, no nil slot, every slot one of the targets *)
@@ -276,10 +337,17 @@ Definition check_case (c : case) : N :=
                             end in
               let same := same_weights && same_counts && same_ring && same_first && same_rnd && same_q in
               let spec := spec_obs n o in
-              verdict same spec None (negb dyn_only && Nat.ltb 1 n)
+              (* region 3 (finding F-C04-3), syntactic on the input: some weight of the command sequence is
+                 positive and outside [1e-300, 1e300] (or not finite) *)
+              verdict same spec (if edge then Some 3%N else None) (negb dyn_only && Nat.ltb 1 n)
           | _ =>
               (* the implementation crashed (or failed) where the model builds the table *)
               verdict false false None true
           end
       end
+  | CParse ws impl =>
+      (* parseWeight accepts exactly the finite values; not a clause of the property: correspondence only *)
+      let accepted := forallb (fun b => f64_finite (f64_of_bits b)) ws in
+      let same := match impl with Ok b => Bool.eqb b accepted | _ => false end in
+      verdict same (match impl with Panic => false | _ => true end) None false
   end.
